@@ -5,7 +5,9 @@ use crate::error::{Error, ErrorKind};
 pub struct FuelTracker {
     // The initial fuel level.
     initial: u64,
-    remaining: isize,
+    // signed and wider than the budget so that every `u64` budget is
+    // representable and running out of fuel is visible as `<= 0`.
+    remaining: i128,
 }
 
 impl FuelTracker {
@@ -14,7 +16,7 @@ impl FuelTracker {
     pub fn new(fuel: u64) -> FuelTracker {
         FuelTracker {
             initial: fuel,
-            remaining: fuel as isize,
+            remaining: fuel as i128,
         }
     }
 
@@ -22,7 +24,7 @@ impl FuelTracker {
     pub fn track(&mut self, instr: &Instruction) -> Result<(), Error> {
         let fuel_to_consume = fuel_for_instruction(instr);
         if fuel_to_consume != 0 {
-            self.remaining -= fuel_to_consume;
+            self.remaining -= fuel_to_consume as i128;
             if self.remaining <= 0 {
                 return Err(Error::from(ErrorKind::OutOfFuel));
             }
@@ -32,7 +34,7 @@ impl FuelTracker {
 
     /// Returns the remaining fuel.
     pub fn remaining(&self) -> u64 {
-        self.remaining as _
+        self.remaining.max(0) as _
     }
 
     /// Returns the consumed fuel.
